@@ -172,7 +172,11 @@ struct TreeBuilder {
       return arr({"initlist", std::move(a)});
     }
     if (auto *CL = dyn_cast<CompoundLiteralExpr>(E)) return arr({"compound", build(CL->getInitializer())});
-    if (auto *SE = dyn_cast<StmtExpr>(E)) return arr({"stmtexpr"});
+    if (auto *SE = dyn_cast<StmtExpr>(E)) {
+      // GNU statement expression: its value is the last expression statement of the compound
+      if (auto *CS = SE->getSubStmt()) if (!CS->body_empty()) if (auto *LE = dyn_cast<Expr>(CS->body_back())) return arr({"stmtexpr", build(LE)});
+      return arr({"stmtexpr", nullptr});
+    }
     if (auto *VA = dyn_cast<VAArgExpr>(E)) return arr({"va_arg", X.typeStr(VA->getType())});
     if (isa<ImplicitValueInitExpr>(E)) return arr({"int", 0});
     if (auto *PE = dyn_cast<PredefinedExpr>(E)) return arr({"str", "<func>"});
